@@ -8,6 +8,7 @@ import facts, extract
 out = set()
 sigs = {}
 adts = set()
+callees = {}
 for cfg in extract.CONFIGS:
     extract.extract(cfg)
     d = os.path.join(extract.CACHE, 'facts-main-' + cfg)
@@ -16,6 +17,13 @@ for cfg in extract.CONFIGS:
             dd = json.loads(line)
             if 'adt' in dd:
                 adts.add(facts.norm(dd['adt']))
+            if 'path' in dd and not dd.get('promoted') and dd.get('kind') in ('Fn', 'AssocFn', 'Closure'):
+                import re as _re
+                owner = _re.sub(r'(::\{closure#\d+\})+$', '', facts.norm(dd['path']))
+                for bl in dd['blocks']:
+                    t = bl['term']
+                    if t['t'] == 'call' and (t.get('resolved') or t.get('callee')):
+                        callees.setdefault(owner, set()).add(facts.norm(t.get('resolved') or t['callee']))
             if 'path' in dd and dd.get('kind') in ('Fn', 'AssocFn') and not dd.get('promoted'):
                 out.add(facts.norm(dd['path']))
                 pn = sorted(((pl['l'], n) for n, pl in (dd.get('names') or {}).items() if not pl['p'] and 1 <= pl['l'] <= dd.get('argc', 0) and '#' not in n))
@@ -24,6 +32,6 @@ with open(os.path.join(HERE, 'known_fns.txt'), 'w') as fh:
     fh.write("# functions of rodbus / rodbus-ffi on the pinned tree (all feature configurations); anything else is an unknown helper and is inlined\n")
     for p in sorted(out):
         fh.write(p + '\n')
-json.dump({p: list(v) for p, v in sorted(sigs.items())}, open(os.path.join(HERE, 'known_sigs.json'), 'w'), indent=0)
+json.dump({p: list(v) + [sorted(callees.get(p, []))[:60]] for p, v in sorted(sigs.items())}, open(os.path.join(HERE, 'known_sigs.json'), 'w'), indent=0)
 open(os.path.join(HERE, 'known_adts.txt'), 'w').write('\n'.join(sorted(a for a in adts if a.split('::')[0] in ('rodbus', 'rodbus_ffi'))) + '\n')
 print(len(out))
